@@ -15,6 +15,10 @@ func symSQLContextNoChange() *sqlite.VirtualTableContext { panic("intrinsic") }
 
 // vSQLUpdate: UPDATE t SET <col> = <val> WHERE a = <key>, the way SQLite drives it.
 func vSQLUpdate(vt *VirtualTable, key int64, col int, val int64) error {
+	return vSQLUpdateV(vt, key, col, symSQLInt(val))
+}
+
+func vSQLUpdateV(vt *VirtualTable, key int64, col int, val sqlite.Value) error {
 	out, err := vt.BestIndex(&sqlite.IndexInfoInput{Constraints: []*sqlite.IndexConstraint{{ColumnIndex: 0, Op: sqlite.INDEX_CONSTRAINT_EQ, Usable: true}}})
 	if err != nil {
 		return err
@@ -36,7 +40,7 @@ func vSQLUpdate(vt *VirtualTable, key int64, col int, val int64) error {
 			args := make([]sqlite.Value, 3)
 			for i := 0; i < 3; i++ {
 				if i == col {
-					args[i] = symSQLInt(val)
+					args[i] = val
 					continue
 				}
 				c := symSQLContextNoChange()
@@ -49,6 +53,12 @@ func vSQLUpdate(vt *VirtualTable, key int64, col int, val int64) error {
 					args[i] = symSQLNoChange()
 				case k == rINT:
 					args[i] = symSQLInt(p.(int64))
+				case k == rFLOAT:
+					args[i] = symSQLFloat(p.(float64))
+				case k == rTEXT:
+					args[i] = symSQLText(p.(string))
+				case k == rBLOB:
+					args[i] = symSQLBlob(p.([]byte))
 				case k == rNULL:
 					args[i] = symSQLNull()
 				default:
